@@ -43,3 +43,10 @@ CHECKS["C09"] = dict(
     design_ref="DESIGN.md 3 C09",
     note="Lua-side state is outside; assumes the begline representation invariant; documents are a fixed catalogue (10 documents x pre_expand on/off); container shapes fixed, contents symbolic.",
 )
+CHECKS["C10"] = dict(
+    engine="E1 CrossHair",
+    technique="CrossHair symbolic execution of add_page/get_page with a recording connection stub (symbolic titles, all spelling variants); solver-driven case split over operation histories on the real SQLite store and lru_cache against a dict model",
+    text="For every symbolic title up to the bound and every spelling variant, the key add_page writes is among the titles get_page queries, and a title differing in the case of a later letter is not: confirmed over all paths. All histories of 3 operations (add v1/v2, add redirect, get, exists, body, resolve) over 2 titles agree with a dict model on the real store.",
+    design_ref="DESIGN.md 3 C10",
+    note="SQL text is not interpreted in the recorder conditions (only bound values); commit/reopen identity is outside; histories are a bounded exhaustive case split driven by forks.",
+)
